@@ -372,6 +372,31 @@ def _r6(rep, src, label, full):
                         ' (the docstring promises a copy)' if 'copy' in doc and 'sharing' not in doc else ''), where=f.where)
         else:
             rep.ok('C20.R5', f.site, 'no shared mutable sets' + label, 'same dictionaries as the receiver' if same_dicts else 'no set object that insert() mutates is shared')
+        # an index *dictionary* of the receiver in a result that is not the receiver's own pair of dictionaries (a view): an insert into
+        # either collection then changes one index of the other and not its inverse -- also when the filter keeps everything
+        runs = [('', res)]
+        if any(isinstance(a_, tuple) and a_ and a_[0] == 'hook' for a_ in args):
+            heap2, it2, me2 = _world(src)
+            for hk_ in ('PF', 'TF', 'PTF'):
+                heap2.hooks[hk_] = lambda it_, a, k: True
+            try:
+                runs.append((' (a filter that keeps everything)', (heap2, it2.call(H.Closure(f.node, {}, me2, f.cls), [heap2.new_list(a_) if isinstance(a_, list) else a_ for a_ in
+                                                                                                            [arg_for(p_) for p_ in f.params()[1:]]]))))
+            except (H.Raised, AnalysisError):
+                pass
+        for lab2, r2 in runs:
+            hp_, rr_ = (heap, r2) if lab2 == '' else r2
+            if not (isinstance(rr_, H.Ref) and hp_.objs[rr_.name]['__class__'] == 'DB'):
+                continue
+            names_ = [hp_.objs[rr_.name][k_].name for k_ in ('db', 'rdb') if isinstance(hp_.objs[rr_.name].get(k_), H.Ref)]
+            of_receiver = [n_ for n_ in names_ if n_ in ('@db.db', '@db.rdb')]
+            what_d = 'index dictionaries are the result\'s own or the receiver\'s pair' + lab2
+            if len(of_receiver) == 1 or (len(of_receiver) == 2 and len(set(names_)) == 1):
+                rep.fail('C20.R5', f.site, 'no index dictionary shared with the receiver' + lab2,
+                         'the returned collection has a dictionary of its own for one index and the receiver\'s %s for the other: insert() on either collection changes that index of '
+                         'both, and the index that is not shared no longer matches it' % of_receiver[0], where=f.where)
+            else:
+                rep.ok('C20.R5', f.site, what_d, 'none' if not of_receiver else 'both (a view)', nontrivial=False)
     if n < 12:
         raise AnalysisError('only %d collection-returning methods interpreted (12 confirmed on the pinned tree)' % n)
     if not full:
